@@ -102,7 +102,7 @@ def sum_of(n, f):
         from . import sym as _sym
         k = z3.Int(fresh("sk"))
         body = treal(f(SInt(k)))
-        A = z3.Const(fresh("sumarg"), z3.ArraySort(z3.IntSort(), z3.RealSort()))
+        A = z3.Const(defn_name("lam", n, k, body), z3.ArraySort(z3.IntSort(), z3.RealSort()))
         # definitional axiom of the summand array, handed to the path condition with the formula that uses it
         _sym.PENDING.append(z3.ForAll([k], z3.Implies(z3.And(0 <= k, k < tz(n)), z3.Select(A, k) == body), patterns=[z3.Select(A, k)]))
         return wrap(_SUM(A, tz(n)))
@@ -141,13 +141,23 @@ def _fft_models():
 
 
 
+_CANON_K = z3.Int("canon.k")
+
+
+def defn_name(prefix, n, k, body):
+    """name of the array constant defined by (length n, k-th element body): structurally equal definitions get the same
+    constant, so that "the same array" (and the same SUM over it) is decided by syntactic identity"""
+    canon = z3.substitute(body, (k, _CANON_K))
+    return "%s#%d.%d" % (prefix, tz(n).get_id() if z3.is_expr(tz(n)) else int(n), canon.get_id())
+
+
 def mk_seq(interp, n, k, body, kind, ekind, nbody=None):
     """sequence of length n whose k-th element is `body` (a z3 term over the bound constant k): a named array constant with
     its definitional axiom in the path condition and the definition kept for eager beta reduction"""
     ctx = interp.ctx
     if os.environ.get("PYVC_LAMBDA"):
         return SSeq(n, z3.Lambda([k], body), kind, ekind, z3.Lambda([k], nbody) if nbody is not None else None)
-    name = fresh("arr")
+    name = defn_name("arr", n, k, body) if nbody is None else fresh("arr")
     A = z3.Const(name, z3.ArraySort(z3.IntSort(), body.sort()))
     rng = z3.And(0 <= k, k < tz(n))
     ctx._add(z3.ForAll([k], z3.Implies(rng, z3.Select(A, k) == body), patterns=[z3.Select(A, k)]))
@@ -179,6 +189,8 @@ def kind_of(v):
     if isinstance(v, SRange):
         return "range"
     if isinstance(v, (SSeq, CList)):
+        if v.kind == "idl":
+            raise CheckerError("the type of a configuration list of unknown kind (range or list) is inspected")
         return {"list": "list", "ndarray": "np.ndarray", "tuple": "tuple"}[v.kind]
     if isinstance(v, CDict):
         return "dict"
@@ -485,7 +497,7 @@ class Lib:
         else:
             interp.err(node, "comprehension element of kind %s over a symbolic iterable" % type(v).__name__)
         ctx = interp.ctx
-        name = fresh("lam")
+        name = defn_name("lam", n, k, body) if nbody is None else fresh("lam")
         if os.environ.get("PYVC_LAMBDA"):
             seq = SSeq(n, z3.Lambda([k], body), kind, ek, z3.Lambda([k], nbody) if nbody is not None else None)
             return seq
